@@ -519,7 +519,7 @@ def tables_json(p2s, s2p, loc):
 
 # ------------------------------------------------------------------ sky regions: description, build
 
-ANG_UNITS = ['arcsec', 'arcsec', 'arcmin', 'deg']
+ANG_UNITS = ['arcsec', 'arcmin', 'deg', 'mas', 'rad', 'hourangle']     # every angular size is given directly in any of these
 
 
 def _q(rng, arcsec):
@@ -924,14 +924,33 @@ def run_history(h, build, d, wcs, wd, convert, contains=None):
 
 # ------------------------------------------------------------------ the real computation (+ the tables for the model)
 
-def typed_answers(sky_reg, pix_reg, skypts, pp, wcs):
-    """`contains` of a sky region and of its pixel image for an ARRAY of positions and for ONE scalar position, by value and type."""
+QSHAPES = [[1, 12], [12, 1], [3, 4], [4, 3], [2, 3, 2], [2, 1, 6], [0], [0, 3]]      # besides the scalar and the (12,) queries
+
+
+def _tcall(f):
+    try:
+        return typed(f())
+    except Exception as e:       # e.g. a broadcast error inside a compound whose components answer in different shapes
+        return {'t': 'exception', 'shape': None, 'v': f'{type(e).__name__}: {e}'}
+
+
+def typed_answers(sky_reg, pix_reg, skypts, pp, wcs, qshape=None):
+    """`contains` of a sky region and of its pixel image, by value and type, for ONE scalar position, for the 1-D array of
+    the case's positions and for the same positions arranged as an N-D array of shape `qshape` (a pixel grid; an empty shape
+    takes no position at all)."""
     from regions import PixCoord
-    out = {'sky_arr': typed(sky_reg.contains(skypts, wcs)), 'pix_arr': typed(pix_reg.contains(pp))}
+    out = {'sky_arr': _tcall(lambda: sky_reg.contains(skypts, wcs)), 'pix_arr': _tcall(lambda: pix_reg.contains(pp))}
     one = skypts[0]
-    out['sky_sc'] = typed(sky_reg.contains(one, wcs))
-    out['pix_sc'] = typed(pix_reg.contains(PixCoord.from_sky(one, wcs)))
+    out['sky_sc'] = _tcall(lambda: sky_reg.contains(one, wcs))
+    out['pix_sc'] = _tcall(lambda: pix_reg.contains(PixCoord.from_sky(one, wcs)))
     out['n'] = len(skypts)
+    qshape = list(qshape) if qshape and int(np.prod(qshape)) <= len(skypts) else [1, len(skypts)]
+    m = int(np.prod(qshape))
+    snd = skypts[:m].reshape(tuple(qshape))
+    pnd = PixCoord(np.asarray(pp.x)[:m].reshape(tuple(qshape)), np.asarray(pp.y)[:m].reshape(tuple(qshape)))
+    out['qshape'] = qshape
+    out['sky_nd'] = _tcall(lambda: sky_reg.contains(snd, wcs))
+    out['pix_nd'] = _tcall(lambda: pix_reg.contains(pnd))
     return out
 
 
@@ -1012,7 +1031,7 @@ def compute(case):
         ptsback = PixCoord.from_sky(skypts, wcs)
         if not _finite(sky_points(sky), pix_points(back), lonlat(skypts)[0], lonlat(skypts)[1], ptsback.x, ptsback.y):
             return {'real': {'finite': False}, 'req': None}      # outside the domain of the WCS: no statement
-        ty = typed_answers(sky, reg, skypts, PixCoord(px, py), wcs)
+        ty = typed_answers(sky, reg, skypts, PixCoord(px, py), wcs, case.get('qshape'))
         ty['pix_sc'] = typed(reg.contains(PixCoord(float(px[0]), float(py[0]))))     # the original position, not its round trip
         real = {'start': canon_pix(reg), 'sky': canon_sky(sky), 'back': canon_pix(back), 'typed': ty,
                 'contains_pix': spread(ty['pix_arr'], len(pts)) or [], 'contains_sky': spread(ty['sky_arr'], len(pts)) or []}
@@ -1057,7 +1076,7 @@ def compute(case):
     ppx, ppy = np.ravel(pp.x).astype(float), np.ravel(pp.y).astype(float)
     if not _finite(pix_points(pix), sky_points(back), ppx, ppy):
         return {'real': {'finite': False}, 'req': None}
-    ty = typed_answers(sreg, pix, skypts, pp, wcs)
+    ty = typed_answers(sreg, pix, skypts, pp, wcs, case.get('qshape'))
     real = {'start': canon_sky(sreg), 'pix': canon_pix(pix), 'back': canon_sky(back), 'typed': ty,
             'contains_sky': spread(ty['sky_arr'], len(pts)) or [], 'contains_pix': spread(ty['pix_arr'], len(pts)) or [],
             'pix_pts': [[float(x), float(y)] for x, y in zip(ppx, ppy)],
@@ -1226,11 +1245,11 @@ class Check(PropertyCheck):
             'non-default equinox/obstime where the frame has one; 40% in the WCS frame itself), per simple component; compounds of the nothing-containing '
             'classes (point/line/text) with every include value at both levels, answers compared by value AND type for one scalar and an array of positions; '
             '(circle, ellipse, rectangle, polygon, regular polygon, 3 annuli, point, line, text) and compounds to depth 2, every sky class, '
-            'sizes 0.015..240 px, any angle/unit, meta (include in {absent,True,False,1,0}, label/comment/text/name/tag) and visual '
+            'sizes 0.015..240 px, every angular size independently in arcsec/arcmin/deg/mas/rad/hourangle, any angle/unit, meta (include in {absent,True,False,1,0}, label/comment/text/name/tag) and visual '
             '(color/linewidth/fontsize/rotation), compound constructors called with explicit and with None dictionaries; '
             'compound operators: &, |, ^ and (40%) a non-commutative callable (a&~b, ~a&b, ~a|b, a) kept by identity through the conversions; '
             'HISTORY MODE (40% of the cases): the region object is first built with other parameters and/or the WCS object with other settings, converted / queried once, then every parameter is re-assigned through the public setters and/or the WCS is edited in place (crval/crpix/cdelt/pc + set()), the first result is mutated by the caller, and only then the compared conversion is made; the model and the oracle know only the final parameters and the final WCS; two successive results must not share PixCoord/meta/visual objects. '
-            'pixel->sky->pixel and sky->pixel->sky; 12 query positions per region (cloud + near-boundary). '
+            'pixel->sky->pixel and sky->pixel->sky; 12 query positions per region (cloud + near-boundary), asked as one scalar, as a (12,) array and as an N-D array of shape (1,12)/(12,1)/(3,4)/(4,3)/(2,3,2)/(2,1,6)/(0,)/(0,3): same shape, dtype bool and values on the sky side and the pixel side. '
             'Non-trivial = geometry round trip of a region with a size/angle, or a membership comparison with both answers present.')
     assumptions = ['PARTIAL PROOF: the WCS (astropy/wcslib) is a parameter of the model; the round-trip theorems assume toPix and toSky are exactly '
                    'mutually inverse, a non-zero scale and a unit north vector; a real WCS inverts only to ~1e-9 pixel',
@@ -1282,7 +1301,7 @@ class Check(PropertyCheck):
     def _pix_case(self, rng, wd, d):
         leaf = self._first_leaf(d)
         pts = query_points(rng, {k: v for k, v in leaf.items() if k not in ('meta', 'visual')}, 12)
-        case = {'kind': 'pix', 'wcs': wd, 'region': d, 'pts': [[float(p[0]), float(p[1])] for p in pts]}
+        case = {'kind': 'pix', 'wcs': wd, 'region': d, 'pts': [[float(p[0]), float(p[1])] for p in pts], 'qshape': rng.choice(QSHAPES)}
         if rng.random() < HISTORY_P:
             case['history'] = gen_history(rng, wd, d, 'pix')
         return case
@@ -1300,7 +1319,7 @@ class Check(PropertyCheck):
         pts = query_points(rng, pd, 12)
         sc = wcs.pixel_to_world(np.array([p[0] for p in pts], dtype=float), np.array([p[1] for p in pts], dtype=float))
         lo, la = lonlat(sc)
-        case = {'kind': 'sky', 'wcs': wd, 'region': d, 'pts': [[float(x), float(y)] for x, y in zip(lo, la)]}
+        case = {'kind': 'sky', 'wcs': wd, 'region': d, 'pts': [[float(x), float(y)] for x, y in zip(lo, la)], 'qshape': rng.choice(QSHAPES)}
         if rng.random() < HISTORY_P:
             case['history'] = gen_history(rng, wd, d, 'sky')
         return case
@@ -1366,6 +1385,13 @@ class Check(PropertyCheck):
             return False
         if n > 1 and (real['typed']['sky_arr']['t'] == 'bool') != bool(model['sky_scalar_for_array']):
             return False
+        ty = real['typed']
+        if 'sky_nd' in ty and not model['sky_scalar_for_array']:
+            # the model answers in the shape of the positions (Props.C06.sky_contains_shape_full_holds), one answer per position
+            if ty['sky_nd']['t'] != 'array' or ty['sky_nd']['shape'] != ty['qshape']:
+                return False
+            if ty['sky_nd']['v'] != real['contains_sky'][:len(ty['sky_nd']['v'])]:
+                return False
         return True
 
     # -------------------------------------------------------------- oracle: the property on the real results
@@ -1519,6 +1545,26 @@ class Check(PropertyCheck):
                 continue
             if empty and spread(sk, n if which == 'arr' else 1) != spread(px, n if which == 'arr' else 1):
                 bad('sky_contains_differs_from_pixel_image', f'{what}: sky {sk["v"]} vs pixel {px["v"]} (nothing-containing classes: no boundary)')
+        # the same positions arranged as an N-D array: both sides answer with a bool array of exactly that shape, and with the
+        # answers they gave for the 1-D arrangement (row-major)
+        if 'sky_nd' in ty:
+            q = ty['qshape']
+            m = int(np.prod(q))
+            what = f'an array of positions of shape {tuple(q)}'
+            sk, px = ty['sky_nd'], ty['pix_nd']
+            if px['t'] != 'array' or px['shape'] != q:
+                bad('pixel_contains_type', f'{what}: the pixel region answers {px["t"]} of shape {px["shape"]}: {str(px["v"])[:200]}')
+            elif sk['t'] != 'array':
+                bad('sky_contains_not_boolean' if sk['t'] != 'bool' else 'sky_contains_shape_differs',
+                    f'{what}: the sky region answers {sk["t"]} {str(sk["v"])[:200]}; its pixel image a bool array of shape {px["shape"]}')
+            elif sk['shape'] != q:
+                bad('sky_contains_shape_differs', f'{what}: the sky region answers with shape {tuple(sk["shape"])}, its pixel image with {tuple(px["shape"])}')
+            else:
+                a1, p1 = spread(ty['sky_arr'], n), spread(ty['pix_arr'], n)
+                if a1 is not None and sk['v'] != a1[:m]:
+                    bad('sky_contains_depends_on_array_shape', f'{what}: sky answers {sk["v"]} but {a1[:m]} for the same positions as a 1-D array')
+                if p1 is not None and px['v'] != p1[:m]:
+                    bad('pixel_contains_type', f'{what}: pixel answers {px["v"]} but {p1[:m]} for the same positions as a 1-D array')
 
     def _compare(self, a, b, unit, case, bad, lost, what, path='root', foreign=frozenset()):
         """start vs round-tripped region: class, geometry within 1e-6 relative, meta, visual."""
